@@ -19,7 +19,9 @@ pub struct Acc {
     pub collapses: u64,
 }
 
-pub fn run_case(dag: &Dag, evs: &[Ev], oracles: SimOracles, abandon: bool, acc: &mut Acc) {
+pub type Filter = fn(&str, &str) -> bool;
+
+pub fn run_case(dag: &Dag, evs: &[Ev], oracles: SimOracles, abandon: bool, filter: Filter, acc: &mut Acc) {
     let mut sim = Sim::new(dag, oracles);
     sim.abandon_on_add_error = abandon;
     for e in evs {
@@ -36,6 +38,10 @@ pub fn run_case(dag: &Dag, evs: &[Ev], oracles: SimOracles, abandon: bool, acc: 
         acc.states.insert(o.canon());
     }
     for (class, msg) in &sim.violations {
+        if class != "panic" && class != "observe-error" && class != "harness" && !filter(class, msg) {
+            *acc.outcomes.entry(format!("other-property:{class}")).or_default() += 1;
+            continue;
+        }
         *acc.outcomes.entry(format!("violation:{class}")).or_default() += 1;
         if acc.violations.iter().filter(|(k, _, _)| k.starts_with(&format!("{class}:"))).count() < 1 {
             acc.violations.push((
@@ -57,13 +63,14 @@ pub fn run_all(
     dags: &[Dag],
     oracles: SimOracles,
     abandon: bool,
+    filter: Filter,
     gen: impl Fn(&Dag, &mut dyn FnMut(&[Ev])) + Sync,
 ) -> u64 {
     let accs: Vec<Acc> = dags
         .par_iter()
         .map(|d| {
             let mut acc = Acc::default();
-            gen(d, &mut |evs: &[Ev]| run_case(d, evs, oracles, abandon, &mut acc));
+            gen(d, &mut |evs: &[Ev]| run_case(d, evs, oracles, abandon, filter, &mut acc));
             acc
         })
         .collect();
